@@ -45,6 +45,9 @@ THEOREMS = {
     "C15_triples_distinct_complete": "duplicate-free in-range indices give pairwise distinct in-range triples a>b>c; all triples when there are C(n,3) indices",
     "C15_dbal_triples": "use site: for every rng.choice answer obeying numpy's contract the scorer's triples are distinct, in range, min(C(n,3),max_combos) many, and all triples when max_combos >= C(n,3)",
     "C15_dbal_triples_too_few_thetas": "use site: fewer than 3 thetas is refused",
+    "C15_comb3_is_binomial": "scipy's comb(n, 3, exact=True) as the translated use site renders it (n(n-1)(n-2)/6, 0 below 3) is the binomial coefficient C(n,3) of all the statements, for every n >= 0",
+    "C15_source_dbal_triples": "use site READ ON THE TRANSLATED SOURCE: for n_thetas >= 3, any budget >= 1 and EVERY rng.choice answer obeying numpy's contract, src_kernel_triples (the translation, regenerated on this run, of the run `n_plates, n_thetas, ... = predictions.shape` .. `idx3 = np.array(idx3)` of dbal_fast_gauss_scoring_vectorized) returns without error three index arrays whose rows are min(C(n,3), budget) pairwise distinct triples a > b > c inside range(n_thetas), and ALL such triples when the budget covers C(n,3)",
+    "C15_dbal_triples_is_source": "the hand-written twin Binom.dbal_triples (subject of C15_dbal_triples) and the translated run deliver the same triples for the same rng.choice answer",
 }
 ASSUMPTIONS = [
     "Python int arithmetic is unbounded and // , % are floor division / modulo with the divisor's sign (= Coq Z.div, Z.modulo)",
